@@ -1,14 +1,26 @@
 #!/bin/bash
-# run_seed.sh <seed dir name> [tier] [property] : apply a seeded change to /repo, run the
-# property's check, undo it straight afterwards, and record the outcome in the seed's meta.json.
+# run_seed.sh <seed dir name> [tier] [property] : apply a seeded change to a scratch clone of
+# /repo (so that /repo itself and the committed evidence stay untouched while other runs are in
+# progress), run the property's check against it, remove the clone, and record the outcome in
+# the seed's meta.json.   With SEED_IN_REPO=1 the change is applied to /repo itself and undone
+# straight afterwards (git -C /repo apply / checkout -- .), as the task brief describes.
 set -u
 d=/verif/seeded/$1; tier=${2:-quick}
 prop=${3:-$(python3 -c "import json;print(json.load(open('$d/meta.json'))['property'])")}
-git -C /repo diff --quiet || { echo "/repo not clean"; exit 2; }
-git -C /repo apply "$d/patch.diff" || exit 2
-/verif/bin/check $prop --tier $tier > /tmp/seedrun-$1.log 2>&1; rc=$?
-git -C /repo checkout -- .
-python3 - "$d" "$prop" "$tier" "$rc" /tmp/seedrun-$1.log <<'PY'
+out=/var/tmp/seedout-$1; rm -rf "$out"; mkdir -p "$out"
+if [ "${SEED_IN_REPO:-0}" = 1 ]; then
+  git -C /repo diff --quiet || { echo "/repo not clean"; exit 2; }
+  git -C /repo apply "$d/patch.diff" || exit 2
+  VERIF_OUT=$out /verif/bin/check $prop --tier $tier > $out/run.log 2>&1; rc=$?
+  git -C /repo checkout -- .
+else
+  clone=/var/tmp/seedrepo-$1; rm -rf "$clone"
+  git clone -q /repo "$clone" || exit 2
+  git -C "$clone" apply "$d/patch.diff" || { rm -rf "$clone"; exit 2; }
+  VERIF_REPO=$clone VERIF_OUT=$out /verif/bin/check $prop --tier $tier > $out/run.log 2>&1; rc=$?
+  rm -rf "$clone"
+fi
+python3 - "$d" "$prop" "$tier" "$rc" $out/run.log <<'PY'
 import json, re, subprocess, sys, time
 d, prop, tier, rc, log = sys.argv[1:6]
 text = open(log).read()
@@ -26,5 +38,6 @@ else:
     m["caught_by"] = ""
 json.dump(m, open(d + "/meta.json", "w"), indent=1)
 PY
-echo "SEED $1 ($prop, $tier): exit=$rc $(grep -c '^VIOLATION' /tmp/seedrun-$1.log) violation(s): $(grep -E '^  obligation' /tmp/seedrun-$1.log | cut -c1-160 | tr '\n' ' ')"
-grep -E "in-language|native replay" /tmp/seedrun-$1.log | cut -c1-200
+echo "SEED $1 ($prop, $tier): exit=$rc $(grep -c '^VIOLATION' $out/run.log) violation(s): $(grep -E '^  obligation' $out/run.log | cut -c1-160 | tr '\n' ' ')"
+grep -E "in-language|native replay" $out/run.log | cut -c1-200
+rm -rf "$out"
